@@ -74,7 +74,10 @@ class DirDBM:
         Encode a key so it can be used as a filename.
         """
         # NOTE: '_' is NOT in the base64 alphabet!
-        return base64.encodebytes(k).replace(b"\n", b"_").replace(b"/", b"-")
+        # The empty key encodes to no characters at all, which would name the
+        # directory itself rather than a file in it; give it the bare line
+        # terminator that every other encoded key ends with.
+        return base64.encodebytes(k).replace(b"\n", b"_").replace(b"/", b"-") or b"_"
 
     def _decode(self, k):
         """
